@@ -702,7 +702,11 @@ Definition define_class_pre (w : world) (d : cdecl) : res (world * nat) :=
   let meta := cd_dbc d || existsb (fun b => match get_class w1 b with Some c => co_meta c | None => false end) (cd_bases d) in
   let k := List.length (w_classes w1) in
   match compute_mro w1 k (cd_bases d) with
-  | None => Err "TypeError"
+  | None =>
+      match (if meta then dbc_decorate_members w1 (cd_bases d) (cd_dbc d) ns ns else Ok (w1, ns)) with
+      | Err e => Err e
+      | Ok _ => Err "TypeError"
+      end
   | Some mro =>
       r2 <- (if meta
              then
@@ -739,7 +743,8 @@ Proof.
   destruct (inv_construction_error (rev (cd_invs d))); [reflexivity|].
   destruct (negb (forallb (is_live w) (cd_bases d))); [reflexivity|].
   destruct (define_members w (cd_bases d) (cd_members d) []) as [[w1 ns]|e]; cbn [bind]; [|reflexivity].
-  destruct (compute_mro w1 (List.length (w_classes w1)) (cd_bases d)) as [mro|]; [|reflexivity].
+  destruct (compute_mro w1 (List.length (w_classes w1)) (cd_bases d)) as [mro|];
+    [|destruct (if cd_dbc d || existsb _ (cd_bases d) then _ else _); reflexivity].
   destruct (cd_dbc d || existsb _ (cd_bases d)).
   - destruct (collapse_invariants w1 (cd_bases d) LInv) as [wa i1].
     destruct (collapse_invariants wa (cd_bases d) LCall) as [wb i2].
@@ -800,7 +805,7 @@ Proof.
   destruct (define_members_good w (cd_bases d) (cd_members d) w [] w1 ns (Keeps_refl w) Fc0 N0 Dm) as (K1 & C1 & N1).
   remember (List.length (w_classes w1)) as k0 eqn:Hk0.
   assert (Ek : k0 = List.length (w_classes w)) by (rewrite Hk0, (Keeps_classes w w1 K1); reflexivity).
-  destruct (compute_mro w1 k0 (cd_bases d)) as [mro|] eqn:Em; [|discriminate].
+  destruct (compute_mro w1 k0 (cd_bases d)) as [mro|] eqn:Em; [|match type of H with context [if ?b then ?x else ?y] => destruct (if b then x else y) end; discriminate].
   assert (Hmro : exists rest, mro = k0 :: rest).
   { unfold compute_mro in Em. destruct (c3_merge _ _) as [l|]; [|discriminate]. injection Em as <-. eexists. reflexivity. }
   destruct Hmro as (rest & ->).
